@@ -324,12 +324,32 @@ def get_type_hints(
     try:
         hints = tp.get_type_hints(obj)
     except (NameError, TypeError):
-        hints = {}
+        hints = _alias_hints(obj)
     # KW_ONLY is a special sentinel to denote kw-only params in a dataclass.
     #  We don't want to do anything with this hint/field. It's not real.
     hints = {f: t for f, t in hints.items() if t is not compat.KW_ONLY}
     if not hints and exhaustive:
         hints = _hints_from_signature(obj)
+    return hints
+
+
+def _alias_hints(obj: tp.Any) -> dict[str, type[tp.Any]]:
+    # `Box[int]` for a user-defined generic `Box`: the hints of `Box`, with its
+    #   type parameters replaced by the arguments of the alias.
+    generic = tp.get_origin(obj)
+    params = getattr(generic, "__parameters__", ())
+    if not (inspect.isclass(generic) and params and isinstance(params, tuple)):
+        return {}
+    try:
+        hints = tp.get_type_hints(generic)
+    except (NameError, TypeError):
+        return {}
+    given = dict(zip(params, tp.get_args(obj)))
+    for name, hint in hints.items():
+        if hint in given:
+            hints[name] = given[hint]
+        elif getattr(hint, "__parameters__", ()):
+            hints[name] = hint[tuple(given.get(p, p) for p in hint.__parameters__)]
     return hints
 
 
